@@ -59,6 +59,10 @@ class PA(Protocol):
     x: int
 
 
+class PAn(Protocol):  # the same data member, not runtime_checkable
+    x: int
+
+
 class PP(Protocol):
     @property
     def x(self) -> int: ...
@@ -309,6 +313,37 @@ class Kxprops:
         return ""
 
 
+class Kxi:  # the member exists per instance only; two instances of this one class differ in its type
+    x: object
+
+    def __init__(self, x: object = 0) -> None:
+        self.x = x
+
+
+# --------------------------------------------------------------------------- function literals (all of run-time type `function`)
+def F_ii(x: int) -> int:
+    return x
+
+
+def F_si(x: str) -> int:
+    return 0
+
+
+def F_oi(x: object) -> int:
+    return 0
+
+
+def F_ib(x: int) -> bool:
+    return True
+
+
+def F_iii(x: int, y: int) -> int:
+    return x
+
+
+FUNCTIONS = {f.__name__: f for f in (F_ii, F_si, F_oi, F_ib, F_iii)}
+
+
 # --------------------------------------------------------------------------- recursive protocols
 class KRec:
     def nxt(self) -> KRec:
@@ -390,21 +425,26 @@ class Khex:
 
 
 # --------------------------------------------------------------------------- tables
+import types as _types
+
 SPECIAL = {"object": object, "Generic": Generic, "Protocol": Protocol}
+RUNTIME_TYPES = {"function": _types.FunctionType, "type": type}  # run-time classes of the function / class literals
 ABCS = {"Sized": Sized, "Hashable": Hashable, "Container": Container}
 BUILTINS = {"int": int, "bool": bool, "float": float, "complex": complex, "str": str}
-PROTOCOLS = {c.__name__: c for c in (P1, P2, P3, PS, PLen, PH, PC, PG, PA, PP, PRec, PQ1, PQ2, PAcc, PPut, PCall, PHex,
+PROTOCOLS = {c.__name__: c for c in (P1, P2, P3, PS, PLen, PH, PC, PG, PA, PAn, PP, PRec, PQ1, PQ2, PAcc, PPut, PCall, PHex,
                                       PHashOnly)}
 PLAIN = {c.__name__: c for c in (K_, K_m, K_n, K_k, K_mn, K_mk, K_nk, K_mnk, Kmb, Kms, Kmattr, Kinh, KP1, KP1x, KP3, Kname,
                                   Klen, KnameLen, KnameI, KPS, KNoHash, KnameNoHash, KPH, KnameCont, KPC, Kgi, Kgs, Kgb, KPGi,
-                                  Kx, Kxs, Kxb, Kxann, Kxprop, Kxprops, KRec, KRecBad, KRecP, KQ, KQz, KAccSelf, KAccP,
+                                  Kx, Kxs, Kxb, Kxann, Kxprop, Kxprops, Kxi, KRec, KRecBad, KRecP, KQ, KQz, KAccSelf, KAccP,
                                   KAccObj, Kput_int, Kput_obj, Kput_bool, Kcall, Kcalls, Khex)}
-CLASSES: dict[str, type] = {**SPECIAL, **ABCS, **BUILTINS, **PROTOCOLS, **PLAIN}
+CLASSES: dict[str, type] = {**SPECIAL, **RUNTIME_TYPES, **ABCS, **BUILTINS, **PROTOCOLS, **PLAIN}
 CLASS_NAME = {v: k for k, v in CLASSES.items()}
 
 # one instance per plain class (the objects [c |-> K, v |-> "inst"] of the specification) + the builtin scalars
 INSTANCES: dict[str, object] = {name: cls() for name, cls in PLAIN.items()}
 SCALARS = {("int", "1"): 1, ("int", "0"): 0, ("bool", "True"): True, ("float", "1.5"): 1.5, ("str", "a"): "a", ("str", ""): "",
            ("NoneType", "None"): None}
+# a second instance of Kxi whose member has another type: the object [c |-> "Kxi", v |-> "s"]
+EXTRA_INSTANCES: dict[tuple[str, str], object] = {("Kxi", "s"): Kxi("")}
 for _name, _obj in INSTANCES.items():  # module attributes INST_<class>: literals for the snippets
     globals()["INST_" + _name] = _obj
